@@ -1,5 +1,433 @@
+//! Case kind `"parse"` (property C15): lexes and parses one source text with the
+//! public lexer / parser API (the call sequence of `Program::load_source`) and
+//! reports the syntax tree as a generic JSON tree, or the syntax error.
+//!
+//! input : `{"k":"parse","src":"..."}`
+//! output: `{"tokens":[[start,end],...], "eof":[start,end], "ast": NODE}`
+//!      or `{"tokens":[...], "eof":[..]|null, "err":{"stage":"lex"|"parse","start":..,"end":..,
+//!           "kind":..,"instead":..,"expected":[..]}}`
+//!
+//! NODE = `{"n": kind, "v": text, "c": [NODE...], "s": start|null, "e": end|null}`.
+//! Every `SpanId` the public `ast` types carry is resolved through
+//! `SpanManager::get_span`; structures that carry no span of their own
+//! (bind, param, arg, member, comprehension clause) have `"s": null`.
+//! `tokens` are the spans of the tokens of the input without the end-of-file
+//! token, `eof` is the span of the end-of-file token.
+
+use rsjsonnet_lang::arena::Arena;
+use rsjsonnet_lang::ast;
+use rsjsonnet_lang::interner::StrInterner;
+use rsjsonnet_lang::lexer::{LexError, Lexer};
+use rsjsonnet_lang::parser::{ParseError, Parser};
+use rsjsonnet_lang::span::{SpanId, SpanManager};
+use rsjsonnet_lang::token::TokenKind;
 use serde_json::{Value as J, json};
 
-pub fn run(_case: &J) -> J {
-    json!({"tool_error": "not implemented"})
+struct Cx<'a> {
+    mgr: &'a SpanManager,
+}
+
+impl Cx<'_> {
+    fn node(&self, n: &str, v: &str, c: Vec<J>, span: Option<SpanId>) -> J {
+        match span {
+            Some(sp) => {
+                let (_, s, e) = self.mgr.get_span(sp);
+                json!({"n": n, "v": v, "c": c, "s": s, "e": e})
+            }
+            None => json!({"n": n, "v": v, "c": c, "s": J::Null, "e": J::Null}),
+        }
+    }
+
+    fn none(&self) -> J {
+        self.node("none", "", vec![], None)
+    }
+
+    fn ident(&self, id: &ast::Ident<'_>) -> J {
+        self.node("id", id.value.value(), vec![], Some(id.span))
+    }
+
+    fn opt(&self, e: Option<&ast::Expr<'_, '_>>) -> J {
+        match e {
+            Some(e) => self.expr(e),
+            None => self.none(),
+        }
+    }
+
+    fn params(&self, ps: &[ast::Param<'_, '_>], span: Option<SpanId>) -> J {
+        let c = ps
+            .iter()
+            .map(|p| {
+                self.node(
+                    "param",
+                    "",
+                    vec![self.ident(&p.name), self.opt(p.default_value.as_ref())],
+                    None,
+                )
+            })
+            .collect();
+        self.node("params", "", c, span)
+    }
+
+    fn bind(&self, b: &ast::Bind<'_, '_>) -> J {
+        let params = match b.params {
+            Some((ps, span)) => self.params(ps, Some(span)),
+            None => self.none(),
+        };
+        self.node(
+            "bind",
+            "",
+            vec![self.ident(&b.name), params, self.expr(&b.value)],
+            None,
+        )
+    }
+
+    fn assertion(&self, a: &ast::Assert<'_, '_>) -> J {
+        self.node(
+            "assertion",
+            "",
+            vec![self.expr(&a.cond), self.opt(a.msg.as_ref())],
+            Some(a.span),
+        )
+    }
+
+    fn spec(&self, s: &ast::CompSpecPart<'_, '_>) -> J {
+        match s {
+            ast::CompSpecPart::For(f) => self.node(
+                "for",
+                "",
+                vec![self.ident(&f.var), self.expr(&f.inner)],
+                None,
+            ),
+            ast::CompSpecPart::If(i) => self.node("cif", "", vec![self.expr(&i.cond)], None),
+        }
+    }
+
+    fn vis(v: ast::Visibility) -> &'static str {
+        match v {
+            ast::Visibility::Default => ":",
+            ast::Visibility::Hidden => "::",
+            ast::Visibility::ForceVisible => ":::",
+        }
+    }
+
+    fn field_name(&self, n: &ast::FieldName<'_, '_>) -> J {
+        match n {
+            ast::FieldName::Ident(id) => self.ident(id),
+            ast::FieldName::String(s, span) => self.node("fstr", s.value(), vec![], Some(*span)),
+            ast::FieldName::Expr(e, span) => self.node("fexpr", "", vec![self.expr(e)], Some(*span)),
+        }
+    }
+
+    fn obj_local(&self, l: &ast::ObjLocal<'_, '_>) -> J {
+        self.node("mlocal", "", vec![self.bind(&l.bind)], None)
+    }
+
+    fn member(&self, m: &ast::Member<'_, '_>) -> J {
+        match m {
+            ast::Member::Local(l) => self.obj_local(l),
+            ast::Member::Assert(a) => self.assertion(a),
+            ast::Member::Field(ast::Field::Value(name, plus, vis, e)) => {
+                let v = format!("{}{}", if *plus { "+" } else { "" }, Self::vis(*vis));
+                self.node("fvalue", &v, vec![self.field_name(name), self.expr(e)], None)
+            }
+            ast::Member::Field(ast::Field::Func(name, ps, pspan, vis, e)) => self.node(
+                "ffunc",
+                Self::vis(*vis),
+                vec![
+                    self.field_name(name),
+                    self.params(ps, Some(*pspan)),
+                    self.expr(e),
+                ],
+                None,
+            ),
+        }
+    }
+
+    /// An object body; `span` is the span of `{ ... }`.
+    fn obj_inside(&self, o: &ast::ObjInside<'_, '_>, span: SpanId) -> J {
+        match o {
+            ast::ObjInside::Members(ms) => self.node(
+                "object",
+                "",
+                ms.iter().map(|m| self.member(m)).collect(),
+                Some(span),
+            ),
+            ast::ObjInside::Comp {
+                locals1,
+                name,
+                plus,
+                body,
+                locals2,
+                comp_spec,
+            } => {
+                let mut c = Vec::new();
+                c.extend(locals1.iter().map(|l| self.obj_local(l)));
+                c.push(self.expr(name));
+                c.push(self.expr(body));
+                c.extend(locals2.iter().map(|l| self.obj_local(l)));
+                c.extend(comp_spec.iter().map(|s| self.spec(s)));
+                self.node("objcomp", if *plus { "+" } else { "" }, c, Some(span))
+            }
+        }
+    }
+
+    fn binop(op: ast::BinaryOp) -> &'static str {
+        use ast::BinaryOp::*;
+        match op {
+            Add => "+",
+            Sub => "-",
+            Mul => "*",
+            Div => "/",
+            Rem => "%",
+            Shl => "<<",
+            Shr => ">>",
+            Lt => "<",
+            Le => "<=",
+            Gt => ">",
+            Ge => ">=",
+            Eq => "==",
+            Ne => "!=",
+            In => "in",
+            BitwiseAnd => "&",
+            BitwiseOr => "|",
+            BitwiseXor => "^",
+            LogicAnd => "&&",
+            LogicOr => "||",
+        }
+    }
+
+    fn unop(op: ast::UnaryOp) -> &'static str {
+        match op {
+            ast::UnaryOp::Minus => "-",
+            ast::UnaryOp::Plus => "+",
+            ast::UnaryOp::BitwiseNot => "~",
+            ast::UnaryOp::LogicNot => "!",
+        }
+    }
+
+    fn expr(&self, e: &ast::Expr<'_, '_>) -> J {
+        use ast::ExprKind as K;
+        let sp = Some(e.span);
+        match &e.kind {
+            K::Null => self.node("null", "", vec![], sp),
+            K::Bool(true) => self.node("true", "", vec![], sp),
+            K::Bool(false) => self.node("false", "", vec![], sp),
+            K::SelfObj => self.node("self", "", vec![], sp),
+            K::Dollar => self.node("dollar", "", vec![], sp),
+            K::String(s) => self.node("str", s, vec![], sp),
+            K::TextBlock(s) => self.node("textblock", s, vec![], sp),
+            K::Number(n) => {
+                let v = if n.exp == 0 {
+                    n.digits.to_string()
+                } else {
+                    format!("{}e{}", n.digits, n.exp)
+                };
+                self.node("num", &v, vec![], sp)
+            }
+            K::Paren(x) => self.node("paren", "", vec![self.expr(x)], sp),
+            K::Object(o) => self.obj_inside(o, e.span),
+            K::Array(items) => {
+                self.node("array", "", items.iter().map(|x| self.expr(x)).collect(), sp)
+            }
+            K::ArrayComp(x, specs) => {
+                let mut c = vec![self.expr(x)];
+                c.extend(specs.iter().map(|s| self.spec(s)));
+                self.node("arraycomp", "", c, sp)
+            }
+            K::Field(x, id) => self.node("field", "", vec![self.expr(x), self.ident(id)], sp),
+            K::Index(x, i) => self.node("index", "", vec![self.expr(x), self.expr(i)], sp),
+            K::Slice(x, a, b, c) => self.node(
+                "slice",
+                "",
+                vec![
+                    self.expr(x),
+                    self.opt(a.as_deref()),
+                    self.opt(b.as_deref()),
+                    self.opt(c.as_deref()),
+                ],
+                sp,
+            ),
+            K::SuperField(ssp, id) => self.node(
+                "superfield",
+                "",
+                vec![self.node("super", "", vec![], Some(*ssp)), self.ident(id)],
+                sp,
+            ),
+            K::SuperIndex(ssp, i) => self.node(
+                "superindex",
+                "",
+                vec![self.node("super", "", vec![], Some(*ssp)), self.expr(i)],
+                sp,
+            ),
+            K::Call(f, args, tailstrict) => {
+                let mut c = vec![self.expr(f)];
+                for a in args.iter() {
+                    c.push(match a {
+                        ast::Arg::Positional(x) => self.node("pos", "", vec![self.expr(x)], None),
+                        ast::Arg::Named(id, x) => {
+                            self.node("named", "", vec![self.ident(id), self.expr(x)], None)
+                        }
+                    });
+                }
+                self.node("call", if *tailstrict { "tailstrict" } else { "" }, c, sp)
+            }
+            K::Ident(id) => self.node("var", id.value.value(), vec![], sp),
+            K::Local(binds, body) => {
+                let mut c: Vec<J> = binds.iter().map(|b| self.bind(b)).collect();
+                c.push(self.expr(body));
+                self.node("local", "", c, sp)
+            }
+            K::If(c, t, f) => self.node(
+                "if",
+                "",
+                vec![self.expr(c), self.expr(t), self.opt(f.as_deref())],
+                sp,
+            ),
+            K::Binary(l, op, r) => {
+                self.node("binary", Self::binop(*op), vec![self.expr(l), self.expr(r)], sp)
+            }
+            K::Unary(op, x) => self.node("unary", Self::unop(*op), vec![self.expr(x)], sp),
+            K::ObjExt(x, o, ospan) => self.node(
+                "objext",
+                "",
+                vec![self.expr(x), self.obj_inside(o, *ospan)],
+                sp,
+            ),
+            K::Func(ps, body) => {
+                self.node("func", "", vec![self.params(ps, None), self.expr(body)], sp)
+            }
+            K::Assert(a, body) => {
+                self.node("assert", "", vec![self.assertion(a), self.expr(body)], sp)
+            }
+            K::Import(x) => self.node("import", "import", vec![self.expr(x)], sp),
+            K::ImportStr(x) => self.node("import", "importstr", vec![self.expr(x)], sp),
+            K::ImportBin(x) => self.node("import", "importbin", vec![self.expr(x)], sp),
+            K::Error(x) => self.node("error", "", vec![self.expr(x)], sp),
+            K::InSuper(x, ssp) => self.node(
+                "insuper",
+                "",
+                vec![self.expr(x), self.node("super", "", vec![], Some(*ssp))],
+                sp,
+            ),
+        }
+    }
+}
+
+fn lex_error_span(e: &LexError) -> (SpanId, String) {
+    let name = format!("{e:?}");
+    let name = name
+        .split(|c: char| !(c.is_alphanumeric() || c == '_'))
+        .next()
+        .unwrap_or("")
+        .to_string();
+    let span = match e {
+        LexError::InvalidChar { span, .. }
+        | LexError::InvalidUtf8 { span, .. }
+        | LexError::UnfinishedMultilineComment { span }
+        | LexError::LeadingZeroInNumber { span }
+        | LexError::MissingFracDigits { span }
+        | LexError::MissingExpDigits { span }
+        | LexError::MissingDigitAfterUnderscore { span }
+        | LexError::ExpOverflow { span }
+        | LexError::InvalidEscapeInString { span, .. }
+        | LexError::IncompleteUnicodeEscape { span }
+        | LexError::InvalidUtf16EscapeSequence { span, .. }
+        | LexError::UnfinishedString { span }
+        | LexError::MissingLineBreakAfterTextBlockStart { span }
+        | LexError::MissingWhitespaceTextBlockStart { span }
+        | LexError::InvalidTextBlockTermination { span } => *span,
+    };
+    (span, name)
+}
+
+pub fn run(case: &J) -> J {
+    let Some(src) = case.get("src").and_then(|s| s.as_str()) else {
+        return json!({"tool_error": "parse case without src"});
+    };
+    let input = src.as_bytes();
+
+    let arena = Arena::new();
+    let ast_arena = Arena::new();
+    let str_interner = StrInterner::new();
+    let mut span_mgr = SpanManager::new();
+    let (span_ctx, _) = span_mgr.insert_source_context(input.len());
+
+    let lexer = Lexer::new(
+        &arena,
+        &ast_arena,
+        &str_interner,
+        &mut span_mgr,
+        span_ctx,
+        input,
+    );
+    let tokens = match lexer.lex_to_eof(false) {
+        Ok(t) => t,
+        Err(e) => {
+            // token spans up to the error, from a second lexer run token by token
+            let mut mgr2 = SpanManager::new();
+            let (ctx2, _) = mgr2.insert_source_context(input.len());
+            let arena2 = Arena::new();
+            let ast_arena2 = Arena::new();
+            let int2 = StrInterner::new();
+            let mut spans = Vec::new();
+            {
+                let mut lx = Lexer::new(&arena2, &ast_arena2, &int2, &mut mgr2, ctx2, input);
+                while let Ok(t) = lx.next_token() {
+                    if t.kind == TokenKind::EndOfFile {
+                        break;
+                    }
+                    if !matches!(t.kind, TokenKind::Whitespace | TokenKind::Comment) {
+                        spans.push(t.span);
+                    }
+                }
+            }
+            let toks: Vec<J> = spans
+                .iter()
+                .map(|s| {
+                    let (_, a, b) = mgr2.get_span(*s);
+                    json!([a, b])
+                })
+                .collect();
+            let (span, kind) = lex_error_span(&e);
+            let (_, s, en) = span_mgr.get_span(span);
+            return json!({"tokens": toks, "eof": J::Null,
+                          "err": {"stage": "lex", "start": s, "end": en, "kind": kind,
+                                  "instead": J::Null, "expected": []}});
+        }
+    };
+
+    let mut tok_spans: Vec<SpanId> = tokens.iter().map(|t| t.span).collect();
+    let eof_span = tok_spans.pop();
+    let eof_is_last = matches!(tokens.last().map(|t| &t.kind), Some(TokenKind::EndOfFile));
+    if !eof_is_last {
+        return json!({"tool_error": "token list does not end with the end-of-file token"});
+    }
+
+    let parser = Parser::new(&arena, &ast_arena, &str_interner, &mut span_mgr, tokens);
+    let result = parser.parse_root_expr();
+
+    let res_span = |mgr: &SpanManager, s: SpanId| {
+        let (_, a, b) = mgr.get_span(s);
+        json!([a, b])
+    };
+    let toks: Vec<J> = tok_spans.iter().map(|s| res_span(&span_mgr, *s)).collect();
+    let eof = eof_span.map(|s| res_span(&span_mgr, s)).unwrap_or(J::Null);
+
+    match result {
+        Ok(root) => {
+            let cx = Cx { mgr: &span_mgr };
+            json!({"tokens": toks, "eof": eof, "ast": cx.expr(&root)})
+        }
+        Err(ParseError::Expected {
+            span,
+            expected,
+            instead,
+        }) => {
+            let (_, s, e) = span_mgr.get_span(span);
+            let exp: Vec<String> = expected.iter().map(|x| format!("{x:?}")).collect();
+            json!({"tokens": toks, "eof": eof,
+                   "err": {"stage": "parse", "start": s, "end": e, "kind": "Expected",
+                           "instead": format!("{instead:?}"), "expected": exp}})
+        }
+    }
 }
